@@ -1157,6 +1157,16 @@ pub fn main(a: Args) -> i32 {
             d.ops.push(DeltaOp::Copy { offset: off, len });
             files.push(("CLIPATCH", "cli_copy_past_eof".into(), bincode::serialize(&d).unwrap()));
         }
+        // a SELF-CONSISTENT hostile delta: every field agrees with every other (the operations add up to source_size, every
+        // copy lies inside the declared basis_size) but describes an output far larger than memory: an error (the real basis
+        // is short), never an abort on an allocation sized by the file's own claim
+        for (n, len) in [(8u64, u32::MAX), (1024, 1u32 << 30), (3, 1u32 << 31), (1 << 12, 1u32 << 30)] {
+            let mut d = Delta::new(512, n * len as u64, len as u64);
+            for _ in 0..n {
+                d.ops.push(DeltaOp::Copy { offset: 0, len });
+            }
+            files.push(("CLIPATCH", "cli_consistent_huge".into(), bincode::serialize(&d).unwrap()));
+        }
         files.push(("CLIDELTA", "cli_empty".into(), vec![]));
         files.push(("CLIPATCH", "cli_empty".into(), vec![]));
         for _ in 0..6 {
